@@ -795,17 +795,15 @@ class Outputs:
 
         all_filenames: dict[str, dict[str, str]] = {}
 
+        # Each entry of 'save_data_to_file' may contain one or several buckets
         dct: Mapping[ValidName, Sequence[ValidFormat]]
-        for dct in self.save_data_to_file:
-            # TODO: Why looking at first entry ? Check this !
-            # Get first entry of `dict` 'item'
-            first_item: tuple[ValidName, Sequence[ValidFormat]]
-            first_item, *_ = dct.items()
+        all_items: Sequence[tuple[ValidName, Sequence[ValidFormat]]] = [
+            item for dct in self.save_data_to_file for item in dct.items()
+        ]
 
-            valid_name: ValidName
-            format_list: Sequence[ValidFormat]
-            valid_name, format_list = first_item
-
+        valid_name: ValidName
+        format_list: Sequence[ValidFormat]
+        for valid_name, format_list in all_items:
             value: np.ndarray | None = processor.get(valid_name, default=None)
             if value is None:
                 continue
@@ -817,7 +815,8 @@ class Outputs:
             else:
                 name = valid_name
 
-            partial_filenames: dict[str, str] = {}
+            # A bucket may be requested in several entries
+            partial_filenames: dict[str, str] = all_filenames.setdefault(valid_name, {})
             out_format: ValidFormat
             for out_format in format_list:
                 func: SaveToFileProtocol = save_methods[out_format]
